@@ -310,7 +310,7 @@ class World(object):
     def make_object(self, o, kind, pathb, variant=None, in_trash=False):
         """create object o of the abstract kind at pathb (bytes); returns its digest."""
         rnd = random.Random('obj|%s|%s' % (self.conc.variant_seed, o))
-        v = variant if variant is not None else rnd.randrange(6)
+        v = variant if variant is not None else rnd.randrange(42)
         tag = ('OBJ-%d-' % o).encode()
         if kind == 'file':
             size = [0, 7, 300, 70000, 1, 4096][v % 6]
@@ -348,11 +348,22 @@ class World(object):
             if kind == 'dlink':
                 lk = ['dangling', 'reldangling', 'dangling'][v % 3]
             else:
-                lk = ['file', 'dir', 'link', 'relfile', 'xvolfile', 'dir'][v % 6]
+                lk = ['file', 'dir', 'link', 'relfile', 'xvolfile', 'dir', 'toentry'][v % 7]
+                if lk == 'toentry' and (in_trash or not getattr(self, 'entry_paths', None)):
+                    lk = 'file'
             if lk == 'dangling':
                 tgt = '/nonexistent/tgt-%d' % o
             elif lk == 'reldangling':
                 tgt = 'nowhere/tgt-%d' % o
+            elif lk == 'toentry':
+                # a link to ANOTHER entry of the model (which may be trashed in the same invocation)
+                used = self.__dict__.setdefault('used_link_targets', set())
+                others = [p for p in self.entry_paths if p != pathb and p not in used]   # the target string is a link's identity
+                if others:
+                    used.add(others[(v + o) % len(others)])
+                    tgt = os.fsdecode(others[(v + o) % len(others)])
+                else:
+                    tgt = self.outside_target(o, 'file')
             elif lk == 'relfile':
                 # relative target (meaningful at the original location only)
                 tgt = os.path.relpath(self.outside_target(o, 'file'), os.fsdecode(os.path.dirname(pathb)))
@@ -446,8 +457,10 @@ class World(object):
                 with open(os.path.join(self.rpath(v), '.Trash-%d' % conc.uid), 'w') as f:
                     f.write('not a dir')
         kinds = cfg['kind']
-        # live entries
-        for e in st['live']:
+        # live entries (non-links first, so that a link may point to another entry)
+        # only entries that are not links themselves: a link to a dangling link would itself be inaccessible (dlink)
+        self.entry_paths = [self.lpath(e['r'], e['d'], e['n']) for e in st['live'] if kinds[e['o'] - 1] in ('file', 'dir')]
+        for e in sorted(st['live'], key=lambda x: kinds[x['o'] - 1] in ('link', 'dlink')):
             pb = self.lpath(e['r'], e['d'], e['n'])
             self.make_object(e['o'], kinds[e['o'] - 1], pb)
             self.register(e['o'], pb)
